@@ -474,6 +474,12 @@ class Unit:
                 raise Undecided('mutant anchor %r occurs %d times in %s' % (mut[1], text.count(mut[1]), e.qualname))
             text = text.replace(mut[1], mut[2])
             self.mutation_applied = True
+        for info in getattr(self, 'inline_helpers', {}).values():
+            if info['name'] != e.name and not getattr(e, 'auto', False):
+                from .inline import inline_calls
+                text, n30 = inline_calls(text, info)
+                if n30:
+                    self.desugar_log.append(('D30', '%s: %d call(s) of the new contract-less helper `%s` replaced by its body (arguments bound first, `self` bound to the receiver)' % (e.qualname, n30, info['name'])))
         if e.d1:
             text, n1 = split_or_guards(text)
             if n1:
